@@ -279,7 +279,7 @@ func Execute(t *testing.T, tape *simrt.Tape, tier string, keepLog bool, maxSim t
 	// the bytes of every TLS handshake of this run (randoms, key shares) come from a seeded stream:
 	// what depends on them - a transport that mistreats particular byte values - replays exactly
 	cryptotest.SetGlobalRandom(t, uint64(tape.Draw(1<<20)))
-	swarm = swarmKnobs{ConnBuf: []int{0, 0, 1, 8}[tape.Draw(4)], WSCompress: tape.Draw(4) == 1, CertVia: []int{0, 0, 1, 2}[tape.Draw(4)]}
+	swarm = swarmKnobs{ConnBuf: []int{0, 0, 1, 8}[tape.Draw(4)], WSCompress: tape.Draw(4) == 1, CertVia: []int{0, 0, 1, 2}[tape.Draw(4)], WSDialCfg: tape.Draw(3) == 0}
 	res := simrt.Run(t, cfg, func() {
 		// package-level state of the library (listener registries and the like) starts afresh
 		lime.VerifResetGlobals()
@@ -309,6 +309,7 @@ type swarmKnobs struct {
 	ConnBuf    int  // ConnBuffer of TCP and websocket listeners (accepted connections waiting for Accept)
 	WSCompress bool // permessage-deflate offered by websocket listeners and by the scripted websocket peers
 	CertVia    int  // how the server's tls.Config supplies its certificate: 0 Certificates, 1 GetCertificate, 2 GetConfigForClient
+	WSDialCfg  bool // real clients hand a TLS configuration to DialWebsocket for ws:// URLs too
 }
 
 // SrvTCPConfig is the TCP listener configuration of this run.
